@@ -18,6 +18,10 @@ import os
 import re
 
 from vplib import Job, REPO
+
+# example obligations link the whole library (precompiled once per run): a library function the example starts to call is
+# then inlined with its real body instead of being an undefined function
+LIBSRC = ['src/avtp/Utils.c']
 import handjobs5 as H5
 
 TALKER_ENV = r'''
@@ -132,7 +136,7 @@ def talker_main_jobs(model, tier, config='le'):
         for tscf in (0, 1):
             # one obligation per transport x control format (constants: symbolic execution prunes the other branches);
             # classic / FD stays symbolic
-            jobs.append(Job('examples/acf-can-talker/main-sending-loop/%s-%s' % ('udp' if udp else 'raw', 'tscf' if tscf else 'ntscf'), src, [],
+            jobs.append(Job('examples/acf-can-talker/main-sending-loop/%s-%s' % ('udp' if udp else 'raw', 'tscf' if tscf else 'ntscf'), src, LIBSRC,
                             enforce='vp_talker_main', replace=repl,
                             loop_contracts={'vp_talker_main': [{'template': OUTER, 'symbols': OUTER_SYMS, 'all_locals': True, 'loop_rank': 0},
                                                                {'template': INNER, 'symbols': INNER_SYMS, 'loop_rank': 1}]},
